@@ -4,7 +4,7 @@ CONSTANTS
   MaxConn = 3
   MaxFrames = 3
   MaxCancels = 3
-  Fixed = FALSE
+  Fixes = {}
   MaxSteps = 12
 SPECIFICATION GenSpec
 CONSTRAINT GenConstraint
